@@ -7,6 +7,7 @@
 #include <chrono>
 #include <cstdio>
 #include <cstring>
+#include <strings.h>
 #include <string>
 
 #include "simdisk.hpp"
@@ -175,7 +176,11 @@ int __wrap_sqlite3_step(sqlite3_stmt* stmt)
             t.f9.attempted = true;
             t.f9.fired = t.contention_hook();
         }
-        if (t.f1.armed && !t.f1.fired && ord == t.f1.ordinal)
+        // a ROLLBACK is never refused: SQLite rolls back even when it reports an error, so "ROLLBACK failed and the
+        // transaction stayed open" is not a state a real deployment meets
+        const char* q = sqlite3_sql(stmt);
+        const bool is_rollback = q && strncasecmp(q, "ROLLBACK", 8) == 0;
+        if (t.f1.armed && !t.f1.fired && ord == t.f1.ordinal && !is_rollback)
         {
             t.f1.fired = true;
             ++t.step_errors;
